@@ -187,7 +187,7 @@ func (d *Den) BinOp(op int, a, b *smt.Term, w int) *smt.Term {
 			if x.ID > y.ID {
 				x, y = y, x
 			}
-			return smt.App(fmt.Sprintf("umul%d", bits), smt.BV(bits), x, y)
+			return smt.AppC(fmt.Sprintf("umul%d", bits), smt.BV(bits), x, y)
 		}
 		return smt.BVMul(a, b)
 	case OpDiv:
